@@ -4,6 +4,7 @@ import Mathlib.Tactic.Linarith
 import Mathlib.Tactic.Ring
 import Urandom.Model.ZigData
 import Urandom.Lemmas.ExpEnclosure
+import Urandom.Lemmas.ZigguratLaw
 /-
 C16 - Normal and exponential samplers really have the normal / exponential law.  **PARTIAL.**
 
@@ -16,8 +17,18 @@ What is decided here:
  (3) the acceptance region of a ziggurat step is exactly the region under the density curve, for any
      antitone density and any exact table over an ordered field (rectangle fast path included), and
      the accepted value lies in the layer's rectangle.
-What is NOT decided (see DESIGN.md 6): that uniform points under the curve have the target law
-(rejection sampling, Marsaglia's tail method) - `ZigguratLawFull` is stated, not proved.
+
+ (4) **the law of the method**, for the idealised algorithm (exact real arithmetic, exactly uniform
+     draws; `Lemmas/ZigguratLaw`, Mathlib measure theory): with pairwise disjoint layers of equal
+     area covering the region under a measurable `f`, a uniform layer, a uniform point in it and
+     rejection outside the region under the curve give an abscissa with density `f / ∫ f`
+     (`ziggurat_law`). Together with (3) - the code's test IS membership in the region under the
+     curve - and (1), (2) - the tables are such layers for `exp(-x²/2)` / `exp(-x)` to the stated
+     accuracy - this is the correctness argument of the sampler.
+What is NOT decided: the effect of floating point and of the 2^-28 / 2^-42 inexactness of the
+tables' areas on the law (a goodness-of-fit search on the implementation covers it, not a proof),
+and that the base-strip sampler (rectangle + Marsaglia / exponential tail) draws a uniform point of
+the base layer (assumed by `ziggurat_law` through its hypothesis on `R 0`).
  (2) **every tabulated ordinate equals the density at the tabulated abscissa** (`Real.exp`, relative
      `10^-13`, all 2 x 257 entries of the tables as they are in the source now): integer-only
      enclosures of `Real.exp` (`Lemmas/ExpEnclosure`: degree-19 Taylor fraction, Mathlib's remainder
@@ -202,5 +213,20 @@ The full statement - the pushforward of the uniform measure on word streams unde
 measure-theoretic formulation (rejection sampling, Marsaglia's tail method, `erfc` for the normal
 tail area) is outside this task; see DESIGN.md 6.  C16 is claimed as partial.
 -/
+
+/-! ### (4) the law of the method -/
+
+/-- **the ziggurat method samples the density `f / ∫ f`** (idealised algorithm: exact reals, exactly
+uniform draws) - see `Lemmas/ZigguratLaw`. The hypotheses are what (1)-(3) establish for the code
+and its tables: the layers are pairwise disjoint, of equal area, cover the region under the curve,
+and a point is kept exactly when it lies under the curve. -/
+theorem ziggurat_method_law {n : ℕ} (f : ℝ → ℝ) (hf : Measurable f)
+    (R : Fin n → Set (ℝ × ℝ)) (hR : ∀ i, MeasurableSet (R i))
+    (hd : Pairwise (Function.onFun Disjoint R)) (v : ENNReal) (hv : ∀ i, MeasureTheory.volume (R i) = v) (hvt : v ≠ ⊤)
+    (hn : 0 < n) (hcover : ZigLaw.under f ⊆ ⋃ i, R i) :
+    MeasureTheory.Measure.map Prod.fst
+        (ProbabilityTheory.cond ((n : ENNReal)⁻¹ • ∑ i, ProbabilityTheory.cond (MeasureTheory.volume : MeasureTheory.Measure (ℝ × ℝ)) (R i)) (ZigLaw.under f)) =
+      (∫⁻ x, ENNReal.ofReal (f x))⁻¹ • (MeasureTheory.volume : MeasureTheory.Measure ℝ).withDensity (fun x => ENNReal.ofReal (f x)) :=
+  ZigLaw.ziggurat_law f hf R hR hd v hv hvt hn hcover
 
 end Urandom.C16
